@@ -5,11 +5,13 @@ use crate::engine_a;
 use crate::engine_b;
 use crate::engine_c;
 use crate::engine_d;
+use crate::engine_f;
 
 pub const A: Engine = Engine { name: "serve-sim", run: engine_a::run };
 pub const C: Engine = Engine { name: "thread-sim", run: engine_c::run };
 pub const D: Engine = Engine { name: "file-sim", run: engine_d::run };
 pub const B: Engine = Engine { name: "chunk-sim", run: engine_b::run };
+pub const F: Engine = Engine { name: "wire-sim", run: engine_f::run };
 
 fn part(engine: Engine, mode: u32, q: u64, t: u64, what: &'static str) -> Part {
     Part { engine, mode, runs_quick: q, runs_thorough: t, what }
@@ -20,7 +22,8 @@ pub fn all() -> Vec<Check> {
         Check {
             prop: "C01",
             level: "exploration",
-            parts: vec![part(A, 0, 2_000_000, 100_000_000, "serve() over fault-free simulated entities; announced vs delivered bytes")],
+            parts: vec![part(A, 0, 2_000_000, 100_000_000, "serve() over fault-free simulated entities; announced vs delivered bytes"),
+                        part(F, 0, 150_000, 10_000_000, "serve() behind the real hyper HTTP/1 connection over a simulated socket: framing and Content-Length as a client sees them on the wire")],
             rule: "one run = one seeded (clock, entity, request, stream chunking/Pending plan, consumer policy); non-trivial = the body ended cleanly so the length comparison was made; distinct = distinct (status, body shape, length class, methods/headers present, chunk-count bucket, Pending seen, policy) signatures",
             assumptions: vec![],
         },
@@ -28,21 +31,24 @@ pub fn all() -> Vec<Check> {
             prop: "C02",
             level: "exploration",
             parts: vec![part(A, 0, 2_000_000, 100_000_000, "serve() over fault-free simulated entities; body identity by entity offsets"),
-                        part(D, 2, 40_000, 2_000_000, "serve() over the crate's own ChunkedReadFile: sequences of single- and multi-range responses on one entity, body bytes vs the file bytes the headers name")],
+                        part(D, 2, 40_000, 2_000_000, "serve() over the crate's own ChunkedReadFile: sequences of single- and multi-range responses on one entity, body bytes vs the file bytes the headers name"),
+                        part(F, 0, 150_000, 10_000_000, "the bytes inside the HTTP framing on the wire (real hyper, simulated socket with short writes and back-pressure) vs the entity bytes the headers name")],
             rule: "as C01; non-trivial = a 200 or 206 whose body was compared with the entity bytes its headers name",
             assumptions: vec![],
         },
         Check {
             prop: "C06",
             level: "exploration",
-            parts: vec![part(A, 0, 2_000_000, 100_000_000, "multi-range requests; independent multipart parser")],
+            parts: vec![part(A, 0, 2_000_000, 100_000_000, "multi-range requests; independent multipart parser"),
+                        part(F, 0, 150_000, 10_000_000, "multipart bodies parsed from the wire behind real hyper")],
             rule: "requests with 2..9 range specs on entities large enough for multipart; non-trivial = a multipart/byteranges 206 was served and parsed; distinct additionally by part count and decimal width of the length",
             assumptions: vec!["a suffix spec with n >= length and a spec with last < first are read differently by RFC 7233 and by the implementation; requests containing one are checked for internal consistency only (that choice belongs to C03, not claimed)"],
         },
         Check {
             prop: "C07",
             level: "fault_enumeration",
-            parts: vec![part(A, 0, 2_000_000, 100_000_000, "one stream fault per run, sampled over shape x kind x part x position x chunk index x Pending")],
+            parts: vec![part(A, 0, 2_000_000, 100_000_000, "one stream fault per run, sampled over shape x kind x part x position x chunk index x Pending"),
+                        part(F, 0, 200_000, 10_000_000, "entity stream faults behind real hyper: a truncated response must not look complete on the wire and the connection must be closed")],
             rule: "exactly one entity-stream fault per run; non-trivial = a fault actually fired in a 200/206 body; distinct = signature including fault kind, faulty get_range call, position class, chunks before the fault, Pending before the fault; grid_cells lists the (shape|kind|part|position|chunk|pending) cells hit",
             assumptions: vec![],
         },
@@ -50,7 +56,8 @@ pub fn all() -> Vec<Check> {
             prop: "C08",
             level: "exploration",
             parts: vec![part(B, 0, 1_000_000, 20_000_000, "producer/consumer operation histories over the real BodyWriter + Body, identity coding"),
-                        part(C, 0, 60_000, 5_000_000, "the same oracle (frames = accepted bytes, clean end) with the producer on its own thread, interleaved inside the operations")],
+                        part(C, 0, 60_000, 5_000_000, "the same oracle (frames = accepted bytes, clean end) with the producer on its own thread, interleaved inside the operations"),
+                        part(F, 1, 150_000, 10_000_000, "streaming_body behind real hyper: producer operations interleaved with the connection task; chunked / close-delimited framing de-framed by an independent parser")],
             rule: "one run = seeded config (chunk size, level, Accept-Encoding, payload kind) + up to 12 interleaved producer/consumer operations + drop + drain; non-trivial = bytes were written and compared with what the client decoded; distinct = (config, operation kinds in order); grid_cells = short-sequence grid: chunk size in {1,2,3,4,7} x every sequence of <= 3 operation kinds out of 10 (5550 cells), sampled not enumerated",
             assumptions: vec![],
         },
@@ -58,7 +65,8 @@ pub fn all() -> Vec<Check> {
             prop: "C09",
             level: "exploration",
             parts: vec![part(B, 0, 200_000, 10_000_000, "as C08 with gzip negotiated, levels 1..9; independent inflater after every flush and at the end"),
-                        part(C, 0, 40_000, 3_000_000, "one valid gzip member = accepted bytes with the producer on its own thread")],
+                        part(C, 0, 40_000, 3_000_000, "one valid gzip member = accepted bytes with the producer on its own thread"),
+                        part(F, 1, 60_000, 5_000_000, "gzip streaming body behind real hyper: the de-framed wire bytes are one gzip member, and decodable after every flush once the connection is idle")],
             rule: "as C08; the client decodes with a hand-written RFC 1951/1952 decoder; non-trivial = a gzip body was produced and decoded",
             assumptions: vec!["the independent inflater (sim/src/inflate.rs) is trusted; it shares no code with flate2/miniz_oxide"],
         },
@@ -73,14 +81,16 @@ pub fn all() -> Vec<Check> {
             prop: "C11",
             level: "fault_enumeration",
             parts: vec![part(B, 0, 300_000, 20_000_000, "abort / body-drop injected at every position of chunk-sim histories, plus queue-release scenarios"),
-                        part(C, 0, 100_000, 8_000_000, "abort and body drop racing with the other side under the baton scheduler")],
+                        part(C, 0, 100_000, 8_000_000, "abort and body drop racing with the other side under the baton scheduler"),
+                        part(F, 1, 150_000, 10_000_000, "abort and client disconnect (socket write errors at a drawn byte) behind real hyper: aborted message never complete on the wire; writer told after hyper dropped the body")],
             rule: "fault = abort or body drop at a drawn position of a drawn operation history (raw and gzip); non-trivial = the fault was injected and judged; the release scenarios measure this thread's live heap bytes",
             assumptions: vec!["a flush with nothing at all to hand over may return Ok after the body was dropped (weaker reading, see DESIGN.md 4.8)"],
         },
         Check {
             prop: "C17",
             level: "exploration",
-            parts: vec![part(B, 0, 300_000, 20_000_000, "streaming_body over Accept-Encoding x level x method x request representation; client decodes by the response header")],
+            parts: vec![part(B, 0, 300_000, 20_000_000, "streaming_body over Accept-Encoding x level x method x request representation; client decodes by the response header"),
+                        part(F, 1, 100_000, 5_000_000, "coding headers as they appear on the wire and the body decoded according to them, behind real hyper")],
             rule: "as C08 with the full configuration space; non-trivial = headers judged and (for non-HEAD) the body decoded according to Content-Encoding and compared",
             assumptions: vec!["the real should_gzip is the oracle for the negotiation, as the property states (its own correctness is C16, not claimed)"],
         },
@@ -97,7 +107,8 @@ pub fn all() -> Vec<Check> {
         Check {
             prop: "C13",
             level: "exploration",
-            parts: vec![part(A, 0, 2_000_000, 100_000_000, "hostile and corrupted requests, any method, extreme entities; panics caught around serve() and every poll")],
+            parts: vec![part(A, 0, 2_000_000, 100_000_000, "hostile and corrupted requests, any method, extreme entities; panics caught around serve() and every poll"),
+                        part(F, 0, 100_000, 10_000_000, "hostile requests through hyper's parser into serve(), client disconnects mid-response; no panic in the connection task")],
             rule: "structured requests with request-path corruption (bit flips, truncation, insertion, hostile numbers, duplicated header lines); non-trivial = serve returned and the body was drained; distinct as C01",
             assumptions: vec!["input dimension only as wide as the generator (a coverage-guided fuzzer would go further); crash-freedom is the by-product invariant of the simulation"],
         },
@@ -112,7 +123,8 @@ pub fn all() -> Vec<Check> {
             prop: "C15",
             level: "exploration",
             parts: vec![part(A, 0, 1_500_000, 80_000_000, "every generated request replayed as HEAD against the same world, clock advanced in between"),
-                        part(B, 0, 100_000, 5_000_000, "streaming_body for HEAD vs GET: same headers, no writer, empty body")],
+                        part(B, 0, 100_000, 5_000_000, "streaming_body for HEAD vs GET: same headers, no writer, empty body"),
+                        part(F, 0, 100_000, 5_000_000, "GET and HEAD twins on one keep-alive connection (also pipelined): same head, no body bytes on the wire")],
             rule: "GET/HEAD pairs; non-trivial = both exchanges completed and were compared; distinct as C01 plus the clock advance",
             assumptions: vec![],
         },
@@ -165,15 +177,20 @@ pub fn components_real(prop: &str) -> Vec<&'static str> {
     let b = "http_serve::streaming_body, StreamingBodyBuilder, BodyWriter, chunker Writer/Reader, Body (real); flate2 + miniz_oxide (real, as http-serve's dependency); std::sync::Mutex behind the instrumented wrapper";
     let c = "the same real writer/reader pair on two real OS threads; real std Mutex (try_lock) under the verif-hooks wrapper; real Waker plumbing";
     let d = "http_serve::ChunkedReadFile, platform::read_at incl. the real pread(2) on real files of the local file system; serve() on top of it; tokio::task::block_in_place (outside a runtime: a plain call)";
+    let e = "miri-sim: the same real http-serve code (built without verif-hooks), std threads, std Mutex/Condvar, flate2 - all executed by the Miri interpreter";
+    let f = "wire-sim: the real hyper 1.4 HTTP/1 server connection (dispatcher, encoder, httparse) driving the real http-serve bodies";
     match prop {
-        "C01" | "C06" | "C07" | "C13" | "C14" => vec![a],
-        "C02" => vec![a, d],
-        "C08" | "C09" | "C17" => vec![b],
-        "C10" => vec![b, c],
-        "C11" => vec![b, c],
-        "C12" | "C20" => vec![a, b, c, d],
-        "C15" => vec![a, b],
-        "C18" => vec![d],
+        "C01" | "C06" | "C07" => vec![a, f],
+        "C14" => vec![a],
+        "C13" => vec![a, e, f],
+        "C02" => vec![a, d, e, f],
+        "C09" | "C17" => vec![b, f],
+        "C08" => vec![b, c, e, f],
+        "C10" => vec![b, c, e],
+        "C11" => vec![b, c, e, f],
+        "C12" | "C20" => vec![a, b, c, d, e],
+        "C15" => vec![a, b, f],
+        "C18" => vec![d, e],
         _ => vec![],
     }
 }
@@ -183,15 +200,20 @@ pub fn components_stub(prop: &str) -> Vec<&'static str> {
     let b = "producer (seeded write/flush/abort/drop program) and consumer in place of the application and hyper; the client's decoder is the harness's own inflater; per-thread counting allocator";
     let c = "thread scheduling: a seeded baton scheduler decides who runs at every lock acquire/release and wake; wakers are harness objects";
     let d = "file contents and metadata written by the harness; read seam (verif-hooks) injects truncation, extension, short reads, EINTR/EIO; system-call seam makes lseek/read/pread scheduling points in the concurrent part; no tokio runtime";
+    let e = "miri-sim: thread scheduling by Miri's seeded pre-emptive scheduler; consumer and producer programs in place of hyper and the application; (files scenario) scratch files written by the harness";
+    let f = "wire-sim: the socket (piecewise reads, short writes, back-pressure, client disconnect at a drawn byte), the HTTP client (independent response parser), the executor (polls only when woken), entity / producer as in serve-sim / chunk-sim";
     match prop {
-        "C01" | "C06" | "C07" | "C13" | "C14" => vec![a],
-        "C02" => vec![a, d],
-        "C08" | "C09" | "C17" => vec![b],
-        "C10" => vec![b, c],
-        "C11" => vec![b, c],
-        "C12" | "C20" => vec![a, b, c, d],
-        "C15" => vec![a, b],
-        "C18" => vec![d],
+        "C01" | "C06" | "C07" => vec![a, f],
+        "C14" => vec![a],
+        "C13" => vec![a, e, f],
+        "C02" => vec![a, d, e, f],
+        "C09" | "C17" => vec![b, f],
+        "C08" => vec![b, c, e, f],
+        "C10" => vec![b, c, e],
+        "C11" => vec![b, c, e, f],
+        "C12" | "C20" => vec![a, b, c, d, e],
+        "C15" => vec![a, b, f],
+        "C18" => vec![d, e],
         _ => vec![],
     }
 }
